@@ -11,6 +11,7 @@
 //   time.Now / time.Since / time.Sleep -> verifrt.Now / Since / Sleep
 //   rand.Int()                         -> verifrt.RandInt()
 //   sync.Mutex / sync.RWMutex (types)  -> verifrt.Mutex / verifrt.RWMutex
+// With :pool after a package directory additionally
 //   sync.Pool (type)                   -> verifrt.Pool (deterministic LIFO free list; Get/Put are scheduling points)
 // With -chan (root package) additionally channel operations, select,
 // sync.WaitGroup, sync.Once, signal.Notify and os.Exit (see chan.go).
@@ -44,6 +45,7 @@ type fileCtx struct {
 	used    bool              // verifrt referenced
 	tmpN    int
 	chanOps bool
+	pools   bool
 	stats   map[string]int
 }
 
@@ -67,6 +69,11 @@ func main() {
 	}
 	total := map[string]int{}
 	for _, arg := range flag.Args() {
+		pools := false
+		if strings.HasSuffix(arg, ":pool") {
+			pools = true
+			arg = strings.TrimSuffix(arg, ":pool")
+		}
 		chanOps := false
 		if strings.HasSuffix(arg, ":chan") {
 			chanOps = true
@@ -91,7 +98,7 @@ func main() {
 			if err != nil {
 				fatal(err)
 			}
-			fc := &fileCtx{fset: fset, f: f, imports: map[string]string{}, chanOps: chanOps, stats: map[string]int{}}
+			fc := &fileCtx{fset: fset, f: f, imports: map[string]string{}, chanOps: chanOps, pools: pools, stats: map[string]int{}}
 			for _, im := range f.Imports {
 				p, _ := strconv.Unquote(im.Path.Value)
 				name := filepath.Base(p)
@@ -199,9 +206,14 @@ func (fc *fileCtx) rewriteTypeExpr(e ast.Expr) ast.Expr {
 	case *ast.SelectorExpr:
 		if fc.isPkg(t.X, "sync") {
 			switch t.Sel.Name {
-			case "Mutex", "RWMutex", "Pool":
+			case "Mutex", "RWMutex":
 				fc.stats["sync."+t.Sel.Name]++
 				return fc.rt(t.Sel.Name)
+			case "Pool":
+				if fc.pools {
+					fc.stats["sync."+t.Sel.Name]++
+					return fc.rt(t.Sel.Name)
+				}
 			case "WaitGroup", "Once":
 				if fc.chanOps {
 					fc.stats["sync."+t.Sel.Name]++
